@@ -84,8 +84,14 @@ func (e *Engine) assumeTypeInvs(f *Frame, st *State) {
 			continue
 		}
 		v := st.load(refAddr(r, et))
-		// a captured variable of the type holds the enclosing method's receiver (or a value obtained from it)
-		add(v, et, fv.Name(), false)
+		// a captured variable named like the enclosing method's receiver holds that receiver (non-nil, see above)
+		isRecv := false
+		for p := fn.Parent(); p != nil; p = p.Parent() {
+			if rc := p.Signature.Recv(); rc != nil && rc.Name() == fv.Name() && types.Identical(rc.Type(), et) {
+				isRecv = true
+			}
+		}
+		add(v, et, fv.Name(), isRecv)
 	}
 }
 
